@@ -1,6 +1,7 @@
 use crate::ctx::Ctx;
 
 pub mod c09;
+pub mod c10;
 pub mod c14;
 pub mod c15;
 pub mod c17;
@@ -8,6 +9,7 @@ pub mod c17;
 pub fn dispatch(ctx: &mut Ctx) -> bool {
     match ctx.prop.as_str() {
         "C09" => c09::run(ctx),
+        "C10" => c10::run(ctx),
         "C14" => c14::run(ctx),
         "C15" => c15::run(ctx),
         "C17" => c17::run(ctx),
